@@ -312,3 +312,67 @@ func genAutogen(tier string, seed uint64) {
 		}
 	}
 }
+
+// histories on long-lived instances, and back-to-back framing
+func genHist(tier string, seed uint64) {
+	emitDefs()
+	r := &rng{s: seed}
+	nh, hl := 300, 40
+	if tier == "thorough" {
+		nh, hl = 2000, 400
+	}
+	types := []reflect.Type{}
+	for _, v := range []interface{}{int(0), "", []int{}, map[string]int{}, Inner{}, WithPtr{}, Emb{}, Rec{}, Tagged{}, OmitAll{}, Nums{}, HasShape{},
+		TrNum(0), KeyStruct{}, MapKeyed{}, NoAtlas{}, HasNoAtlas{}, []byte{}, StrMap{}} {
+		types = append(types, reflect.TypeOf(v))
+	}
+	types = append(types, reflect.TypeOf((*interface{})(nil)).Elem())
+	for i := 0; i < nh; i++ {
+		f := []string{"cbor", "json"}[r.intn(2)]
+		var ops []string
+		for j := 0; j < 1+r.intn(hl); j++ {
+			aid := 1 + r.intn(4)
+			t := types[r.intn(len(types))]
+			o := genOpts{depth: 1 + r.intn(3), jsonSafe: f == "json" && !r.chance(1, 10), roundtrip: true, tagged: aid == 2 || aid == 3, cbor: f == "cbor"}
+			switch r.intn(10) {
+			case 0, 1, 2, 3:
+				ops = append(ops, fmt.Sprintf("M|%d|%d|%s", aid, tid(t), genValue(r, t, o)))
+			case 4, 5:
+				ops = append(ops, fmt.Sprintf("C|%d|%d|%s", aid, tid(t), genValue(r, t, o)))
+			default:
+				// an item for the unmarshaller: a valid encoding of a value of the type, or of another type (wrong kind)
+				st := t
+				if r.chance(1, 5) {
+					st = []reflect.Type{reflect.TypeOf(""), reflect.TypeOf(int(0)), reflect.TypeOf(false)}[r.intn(3)]
+				}
+				vd := genValue(r, st, o)
+				res := opRoundtrip([]string{f, fmt.Sprint(aid), fmt.Sprint(tid(st)), "nil", "-", vd})
+				hx := strings.Split(strings.TrimPrefix(strings.Split(res, " ")[0], "I="), "/")[0]
+				if hx == "-" || hx == "" {
+					continue
+				}
+				if f == "json" {
+					hx += "0a"
+				}
+				ops = append(ops, fmt.Sprintf("U|%d|%d|%s", aid, tid(t), hx))
+			}
+		}
+		if len(ops) > 0 {
+			emit("hist %s %s", f, strings.Join(ops, ";"))
+		}
+	}
+	nf := 400
+	if tier == "thorough" {
+		nf = 6000
+	}
+	for i := 0; i < nf; i++ {
+		f := []string{"cbor", "json"}[r.intn(2)]
+		aid := 1 + r.intn(3)
+		t := types[r.intn(len(types)-4)]
+		var vals []string
+		for j := 0; j < 2+r.intn(19); j++ {
+			vals = append(vals, genValue(r, t, genOpts{depth: 1 + r.intn(3), jsonSafe: f == "json", roundtrip: true, tagged: aid == 2 || aid == 3, cbor: f == "cbor"}))
+		}
+		emit("frame %s %d %d %s", f, aid, tid(t), strings.Join(vals, "|"))
+	}
+}
